@@ -63,6 +63,13 @@ SCENARIOS = {
     "spawn_low5": "Li sp0:h0,h1,h2,i,h1:ok R X0 R Lc",
     "spawn_low7": "Li pi0:0 sp1:h2,p0,h0,h1,i,h2,h0:ok R X0 X1 R Lc",
     "spawn_low9": "Li sp0:h0,h1,h2,h0,h1,h2,i,i,h0:ok R X0 R Lc",
+    # mixed stdio containers; uv_spawn fails during stdio setup - by UV_EINVAL (CREATE_PIPE with a handle
+    # that is not a pipe, t<k>) or, through the fault generator, at each socketpair/pipe2 - after
+    # UV_INHERIT_STREAM (s<k>) / UV_INHERIT_FD entries: their descriptors are not uv_spawn's to close
+    "spawn_mixed_einval": "Li ti0:4 pi1:0 sp2:s0,p1,t0:ok X0 X1 X2 R Lc",
+    "spawn_mixed_einval2": "Li gp0:1 pi0:0 po0:g0 ti1:4 pi2:0 sp3:h2,s0,s1,p2,i,t1:ok go5 X0 X1 X2 X3 R gc5 gu1 Lc",
+    "spawn_mixed_ok": "Li ti0:4 pi1:0 pi2:0 sp3:s0,h1,p1,i,p2,s0:ok R X0 X1 X2 X3 R Lc",
+    "spawn_mixed_pipe_stream": "Li gs0:1 pi0:0 po0:g0 pi1:0 pi2:0 sp3:p1,s0,h2,p2:ok R X0 X1 X2 X3 R gu1 Lc",
     # several descriptors in one SCM_RIGHTS message, without and with an allocation failure in
     # uv__stream_queue_fd (first uv__malloc of the queue / the uv__realloc that grows it)
     "ipc_raw4": "Li gs0:1 pi1:1 po1:g1 gw0:4 rs1:1 R X1 R gu0 Lc",
@@ -247,7 +254,7 @@ def canon_events(events, rn):
         if closes:
             out.extend(sorted(closes)); closes.clear()
     for t in events:
-        m = re.match(r"^(x|xbad|xforeign|xlost|c)(\d+)$", t)
+        m = re.match(r"^(x|xbad|xforeign|xlost|cbad|c)(\d+)$", t)
         if m:
             # whose descriptor was closed is the monitor's business; the model predicts *that* it is closed
             kind = "x" if m.group(1) == "xforeign" else m.group(1)
@@ -335,12 +342,20 @@ def monitor_line(line):
             if fds is not None and cx != 1:
                 return "descriptor %s created by %s without close-on-exec (in %s)" % (fds, kind, op)
         for t in events:
+            if t.startswith("!stolen"):
+                return "uv_spawn closed descriptor %s, which was only passed to it with UV_INHERIT_FD/" \
+                       "UV_INHERIT_STREAM (in %s)" % (t[7:], op)
+            if t.startswith("!changed"):
+                return "descriptor %s refers to a different file after %s (closed behind its owner's back " \
+                       "and the number reused)" % (t[8:], op)
             if t.startswith("!nocx"):
                 return "descriptor %s created by libuv is open without FD_CLOEXEC when %s returns" % (t[5:], op)
             if t.startswith("!"):
                 return "harness anomaly %s in %s" % (t, op)
             if t.startswith("xforeign"):
                 return "libuv closed descriptor %s which it does not own (in %s)" % (t[8:], op)
+            if t.startswith("cbad"):
+                return "the caller's descriptor %s was already closed when the caller closed it (in %s)" % (t[4:], op)
             if t.startswith("xbad"):
                 return "libuv closed descriptor number %s which is not open (double close, in %s)" % (t[4:], op)
             if t.startswith("xlost"):
